@@ -711,10 +711,11 @@ def _v_bracket():
 
 def _v_variant():
     from util import name
-    _ps(name, 'get_variant_name', "while nm in prevs:", "while False:")
+    _ps(name, 'get_variant_name', "    if nm not in prevs:\n        return nm\n", "    if nm not in prevs or len(prevs) > 1:\n        return nm\n")
 
 
 def _v_settings():
+    import logic.basic  # noqa (import order)
     from syntax import settings as st
     import contextlib
 
@@ -737,7 +738,7 @@ def _v_settings():
 
 def _v_annot():
     from syntax import infertype
-    _ps(infertype, 'infer_printed_type', "t.print_type = True", "t.print_type = False")
+    _ps(infertype, 'infer_printed_type', "if to_replace is None or t.T.size() < to_replaceT.size():", "if to_replace is None or t.T.size() > to_replaceT.size():")
 
 
 VARIANTS = {
